@@ -93,7 +93,7 @@ def do_run(ids):
             if sh("git -C %s apply %s" % (REPO, os.path.join(d, "patch.diff"))).returncode != 0:
                 print(sid, "patch does not apply")
                 continue
-            r = sh("cd %s && VERIF_SEED=1 /venv/bin/python check.py %s --tier quick" % (VERIF, pid), timeout=3000)
+            r = sh("cd %s && VERIF_EVIDENCE_DIR=/tmp/seeded_evidence VERIF_SEED=1 /venv/bin/python check.py %s --tier quick" % (VERIF, pid), timeout=3000)
             lines = [l for l in r.stdout.splitlines() if l.startswith("VIOLATION") or l.startswith(pid + " tier")]
             detected = r.returncode == 1 and any(l.startswith("VIOLATION") for l in lines)
             with_input = detected and not any("no-failing-input-found" in l for l in lines)
